@@ -25,7 +25,7 @@ RULE = (
 )
 ASSUMPTIONS = ["libxml2's XSD validator is the judge of schema validity", "e-mail option values match the XSD pattern (the brief of the property)"]
 BUDGET = {"quick": (240, 4), "thorough": (40000, 16)}
-REQUIRED = ["sf_nested", "no_file_history", "failed_run", "-dr", "many_formats", "-n", "ignore_opts", "creator_opts", "flatten"]
+REQUIRED = ["sf_nested", "no_file_history", "failed_run", "-dr", "many_formats", "-n", "ignore_opts", "creator_opts", "flatten", "renamed_directory_record"]
 
 _text = st.one_of(gen.names("full"), st.text(max_size=20).filter(lambda s: all(ord(c) >= 32 and c not in "\x7f  ￾￿" and not (0xD800 <= ord(c) <= 0xDFFF) and not (0x80 <= ord(c) < 0xA0) for c in s)))
 _email = st.builds(lambda a, b, c: "%s@%s.%s" % (a, b, c), gen.plain_names(), st.text("abcxyz", min_size=1, max_size=5), st.sampled_from(["com", "de", "co.uk"]))
@@ -72,7 +72,15 @@ def _with_rename(draw):
         m = hist.GenModel(scn["tree"])
         for s in scn["steps"]:
             m.apply(s)
-        if m.files and m.roots:
+        if draw(st.booleans()) and not ({"rdir", "rdir.renamed"} & hist.top_names_used(scn)):
+            # a renamed folder (added and sealed first): detected through its directory hash when the same format is used again
+            fm = draw(gen.formats(2))
+            scn["steps"].append({"op": "put_new", "path": "rdir/f1.mov", "spec": "unique content one"})
+            scn["steps"].append({"op": "put_new", "path": "rdir/sub/f2.mov", "spec": "unique content two"})
+            scn["steps"].append({"op": "create", "root": "", "formats": fm, "flags": [], "extra": []})
+            scn["steps"].append({"op": "mv", "src": draw(st.sampled_from(["rdir", "rdir/sub"])), "dst": "rdir.renamed"})
+            scn["steps"].append({"op": "create", "root": "", "formats": fm, "flags": ["-dr"], "extra": []})
+        elif m.files and m.roots:
             src = draw(st.sampled_from(sorted(m.files)))
             dst = src + ".renamed"
             if dst not in m.files and dst not in m.dirs:
@@ -155,6 +163,8 @@ def run_case(scn, ctx):
                         feats.add("no_file_history")
                     if any(r["previous"] for r in doc["records"]):
                         feats.add("-dr")
+                    if any(r["previous"] and r["kind"] == "dir" for r in doc["records"]):
+                        feats.add("renamed_directory_record")
             if len(step.get("formats", ())) != len(set(step.get("formats", ()))) or len(set(step.get("formats", ()))) >= 3:
                 feats.add("many_formats")
             if "-n" in step.get("flags", ()):
